@@ -487,7 +487,7 @@ def check_adjust_rest(inp):
     o2, l2 = mir_eval.util.adjust_intervals(arr(ivs), None, a, b, START, END)
     if l2 is not None or [tuple(r) for r in np.asarray(o2).tolist()] != out:
         return "labels=None gives different intervals or invents labels"
-    if not regions.REGIONS["adjust_zero_length"](inp):
+    if not regions.REGIONS["adjust_all_before_tmin"](inp):
         w = check_adjust_posdur(inp)
         if w:
             return w
